@@ -44,6 +44,16 @@ mut("C07: releaseParamCaps ignored (reverts 537afc4 in effect)", ["C07"], "rpc/r
     "\tif ret.ReleaseParamCaps() && len(q.paramRefs) > 0 {", "\tif false && len(q.paramRefs) > 0 {")
 mut("C07: answers keep their result capabilities after Finish", ["C07"], "rpc/answer.go",
     "\tdelete(ans.c.answers, ans.id)\n\trl := releaseList(ans.resultCapTable)", "\tdelete(ans.c.answers, ans.id)\n\trl := releaseList(nil)")
+# ---- added with the third round
+mut("C04: NewInt16List allocates 4-byte elements", ["C04"], "list.go",
+    "func NewInt16List(s *Segment, n int32) (Int16List, error) {\n\tl, err := newPrimitiveList(s, 2, n)", "func NewInt16List(s *Segment, n int32) (Int16List, error) {\n\tl, err := newPrimitiveList(s, 4, n)")
+mut("C03: ListDefault treats an empty list as absent", ["C03"], "pointer.go",
+    "\tl := p.List()\n\tif l.seg == nil {\n\t\tif def == nil {\n\t\t\treturn List{}, nil", "\tl := p.List()\n\tif l.seg == nil || l.length == 0 {\n\t\tif def == nil {\n\t\t\treturn List{}, nil")
+mut("C10: Resolve reports success when its context ends first", ["C10"], "capability.go",
+    "\t\tcase <-h.resolved:\n\t\tcase <-ctx.Done():\n\t\t\treturn ctx.Err()", "\t\tcase <-h.resolved:\n\t\tcase <-ctx.Done():\n\t\t\treturn nil")
+mut("C12: a call that waited for a slot is started although Shutdown has begun", ["C12"], "server/server.go",
+    "\t\tid = srv.nextID()\n\t\tif srv.drain != nil {", "\t\tid = srv.nextID()\n\t\tif false && srv.drain != nil {")
+mut("C20: a failed Encode poisons the encoder's writer state", ["C20"], "encoding/text/marshal.go", "XXXX-not-present", "")
 # ---- C09
 mut("C09: sendMessage keeps the sender lock when building the message fails", ["C09"], "rpc/rpc.go",
     "\t\trelease()\n\t\tc.mu.Lock()\n\t\tc.unlockSender()\n\t\treturn errorf(\"build message: %v\", err)", "\t\trelease()\n\t\tc.mu.Lock()\n\t\treturn errorf(\"build message: %v\", err)")
